@@ -58,4 +58,136 @@ theorem src_offset_mod_rs_fn_from_local_datetime : C05_src_offset_mod_rs_fn_from
 theorem src_offset_mod_rs_type_MappedLocalTime : C05_src_offset_mod_rs_type_MappedLocalTime =
     ["<", "T", ">", "MappedLocalTime", "<", "T", ">", "single(", "self", "->", "Option", "<", "T", ">", "match", "self", "MappedLocalTime", "Single(", "v1", "=>", "Some(", "v1", "v2", "=>", "None", "earliest(", "self", "->", "Option", "<", "T", ">", "match", "self", "MappedLocalTime", "Single(", "v1", "|", "MappedLocalTime", "Ambiguous(", "v1", "v2", "=>", "Some(", "v1", "v2", "=>", "None", "latest(", "self", "->", "Option", "<", "T", ">", "match", "self", "MappedLocalTime", "Single(", "v1", "|", "MappedLocalTime", "Ambiguous(", "v2", "v1", "=>", "Some(", "v1", "v2", "=>", "None", "v3", "<", "U", "F", "FnMut(", "T", "->", "U", ">", "self", "v4", "F", "->", "MappedLocalTime", "<", "U", ">", "match", "self", "MappedLocalTime", "None", "=>", "MappedLocalTime", "None", "MappedLocalTime", "Single(", "v5", "=>", "MappedLocalTime", "Single(", "f(", "v5", "MappedLocalTime", "Ambiguous(", "v6", "v7", "=>", "MappedLocalTime", "Ambiguous(", "f(", "v6", "f(", "v7", "pub(", "v8", "<", "U", "F", "FnMut(", "T", "->", "Option", "<", "U", ">>", "self", "v4", "F", "->", "MappedLocalTime", "<", "U", ">", "match", "self", "MappedLocalTime", "None", "=>", "MappedLocalTime", "None", "MappedLocalTime", "Single(", "v5", "=>", "match", "f(", "v5", "Some(", "v9", "=>", "MappedLocalTime", "Single(", "v9", "None", "=>", "MappedLocalTime", "None", "MappedLocalTime", "Ambiguous(", "v6", "v7", "=>", "match(", "f(", "v6", "f(", "v7", "Some(", "v6", "Some(", "v7", "=>", "MappedLocalTime", "Ambiguous(", "v6", "v7", "v2", "=>", "MappedLocalTime", "None", "§", "<", "Tz", "TimeZone", ">", "MappedLocalTime", "<", "Date", "<", "Tz", ">>", "and_time(", "self", "v1", "NaiveTime", "->", "MappedLocalTime", "<", "DateTime", "<", "Tz", ">>", "match", "self", "MappedLocalTime", "Single(", "v2", "=>", "v2", "and_time(", "v1", "map_or(", "MappedLocalTime", "None", "MappedLocalTime", "Single", "v3", "=>", "MappedLocalTime", "None", "and_hms_opt(", "self", "v4", "u32", "v5", "u32", "v6", "u32", "->", "MappedLocalTime", "<", "DateTime", "<", "Tz", ">>", "match", "self", "MappedLocalTime", "Single(", "v2", "=>", "v2", "and_hms_opt(", "v4", "v5", "v6", "map_or(", "MappedLocalTime", "None", "MappedLocalTime", "Single", "v3", "=>", "MappedLocalTime", "None", "and_hms_milli_opt(", "self", "v4", "u32", "v5", "u32", "v6", "u32", "v7", "u32", "->", "MappedLocalTime", "<", "DateTime", "<", "Tz", ">>", "match", "self", "MappedLocalTime", "Single(", "v2", "=>", "v2", "and_hms_milli_opt(", "v4", "v5", "v6", "v7", "map_or(", "MappedLocalTime", "None", "MappedLocalTime", "Single", "v3", "=>", "MappedLocalTime", "None", "and_hms_micro_opt(", "self", "v4", "u32", "v5", "u32", "v6", "u32", "v8", "u32", "->", "MappedLocalTime", "<", "DateTime", "<", "Tz", ">>", "match", "self", "MappedLocalTime", "Single(", "v2", "=>", "v2", "and_hms_micro_opt(", "v4", "v5", "v6", "v8", "map_or(", "MappedLocalTime", "None", "MappedLocalTime", "Single", "v3", "=>", "MappedLocalTime", "None", "and_hms_nano_opt(", "self", "v4", "u32", "v5", "u32", "v6", "u32", "v9", "u32", "->", "MappedLocalTime", "<", "DateTime", "<", "Tz", ">>", "match", "self", "MappedLocalTime", "Single(", "v2", "=>", "v2", "and_hms_nano_opt(", "v4", "v5", "v6", "v9", "map_or(", "MappedLocalTime", "None", "MappedLocalTime", "Single", "v3", "=>", "MappedLocalTime", "None", "§", "<", "T", "v1", "Debug", ">", "MappedLocalTime", "<", "T", ">", "unwrap(", "self", "->", "T", "match", "self", "MappedLocalTime", "None", "=>", "panic!(", "\"…\"", "MappedLocalTime", "Single(", "v2", "=>", "v2", "MappedLocalTime", "Ambiguous(", "v3", "v4", "=>", "panic!(", "\"…\"", "v3", "v4"] := by decide +kernel
 
+/-- callee src/datetime/mod.rs:fn from_naive_utc_and_offset -/
+theorem callee_src_datetime_mod_rs_fn_from_naive_utc_and_offset : C05_callee_src_datetime_mod_rs_fn_from_naive_utc_and_offset =
+    ["v1", "NaiveDateTime", "v2", "Tz", "Offset", "->", "DateTime", "<", "Tz", ">", "DateTime", "v1", "v2"] := by decide +kernel
+
+/-- callee src/naive/datetime/mod.rs:fn and_utc -/
+theorem callee_src_naive_datetime_mod_rs_fn_and_utc : C05_callee_src_naive_datetime_mod_rs_fn_and_utc =
+    ["&", "self", "->", "DateTime", "<", "Utc", ">", "DateTime", "from_naive_utc_and_offset(", "*", "self", "Utc"] := by decide +kernel
+
+/-- callee src/naive/datetime/mod.rs:fn checked_sub_offset -/
+theorem callee_src_naive_datetime_mod_rs_fn_checked_sub_offset : C05_callee_src_naive_datetime_mod_rs_fn_checked_sub_offset =
+    ["self", "v1", "FixedOffset", "->", "Option", "<", "NaiveDateTime", ">", "let(", "v2", "v3", "self", "v2", "overflowing_sub_offset(", "v1", "v4", "match", "v3", "-", "1", "=>", "try_opt!(", "self", "v4", "pred_opt(", "1", "=>", "try_opt!(", "self", "v4", "succ_opt(", "v5", "=>", "self", "v4", "Some(", "NaiveDateTime", "v4", "v2"] := by decide +kernel
+
+/-- callee src/offset/fixed.rs:fn east_opt -/
+theorem callee_src_offset_fixed_rs_fn_east_opt : C05_callee_src_offset_fixed_rs_fn_east_opt =
+    ["v1", "i32", "->", "Option", "<", "FixedOffset", ">", "if", "-", "86400", "<", "v1", "&&", "v1", "<", "86400", "Some(", "FixedOffset", "v2", "v1", "else", "None"] := by decide +kernel
+
+/-- callee src/offset/local/tz_info/parser.rs:fn peek -/
+theorem callee_src_offset_local_tz_info_parser_rs_fn_peek : C05_callee_src_offset_local_tz_info_parser_rs_fn_peek =
+    ["&", "self", "->", "Option", "<", "&", "u8", ">", "self", "remaining(", "first("] := by decide +kernel
+
+/-- callee src/offset/local/tz_info/parser.rs:fn read_be_u32 -/
+theorem callee_src_offset_local_tz_info_parser_rs_fn_read_be_u32 : C05_callee_src_offset_local_tz_info_parser_rs_fn_read_be_u32 =
+    ["&", "self", "->", "Result", "<", "u32", "Error", ">", "v1", "0", "4", "v1", "copy_from_slice(", "self", "read_exact(", "4", "?", "Ok(", "u32", "from_be_bytes(", "v1"] := by decide +kernel
+
+/-- callee src/offset/local/tz_info/parser.rs:fn read_exact -/
+theorem callee_src_offset_local_tz_info_parser_rs_fn_read_exact : C05_callee_src_offset_local_tz_info_parser_rs_fn_read_exact =
+    ["&", "self", "v1", "usize", "->", "Result", "<", "&", "u8", "v2", "Error", ">", "match(", "self", "v3", "get(", "..", "v1", "self", "v3", "get(", "v1", "..", "Some(", "v4", "Some(", "v3", "=>", "self", "v3", "v3", "self", "v5", "+=", "v1", "Ok(", "v4", "v6", "=>", "Err(", "v2", "Error", "from(", "ErrorKind", "UnexpectedEof"] := by decide +kernel
+
+/-- callee src/offset/local/tz_info/parser.rs:fn read_int -/
+theorem callee_src_offset_local_tz_info_parser_rs_fn_read_int : C05_callee_src_offset_local_tz_info_parser_rs_fn_read_int =
+    ["<", "T", "FromStr", "<", "Err", "ParseIntError", ">>", "&", "self", "->", "Result", "<", "T", "Error", ">", "v1", "self", "read_while(", "u8", "v2", "?", "Ok(", "str", "from_utf8(", "v1", "?", "parse(", "?"] := by decide +kernel
+
+/-- callee src/offset/local/tz_info/parser.rs:fn read_optional_tag -/
+theorem callee_src_offset_local_tz_info_parser_rs_fn_read_optional_tag : C05_callee_src_offset_local_tz_info_parser_rs_fn_read_optional_tag =
+    ["&", "self", "v1", "&", "u8", "->", "Result", "<", "bool", "v2", "Error", ">", "if", "self", "v3", "starts_with(", "v1", "self", "read_exact(", "v1", "len(", "?", "Ok(", "true", "else", "Ok(", "false"] := by decide +kernel
+
+/-- callee src/offset/local/tz_info/parser.rs:fn read_tag -/
+theorem callee_src_offset_local_tz_info_parser_rs_fn_read_tag : C05_callee_src_offset_local_tz_info_parser_rs_fn_read_tag =
+    ["&", "self", "v1", "&", "u8", "->", "Result", "<", "v2", "Error", ">", "if", "self", "read_exact(", "v1", "len(", "?", "==", "v1", "Ok(", "else", "Err(", "v2", "Error", "from(", "ErrorKind", "InvalidData"] := by decide +kernel
+
+/-- callee src/offset/local/tz_info/parser.rs:fn read_until -/
+theorem callee_src_offset_local_tz_info_parser_rs_fn_read_until : C05_callee_src_offset_local_tz_info_parser_rs_fn_read_until =
+    ["<", "F", "Fn(", "&", "u8", "->", "bool", ">", "&", "self", "v1", "F", "->", "Result", "<", "&", "u8", "v2", "Error", ">", "match", "self", "v3", "iter(", "position(", "v1", "None", "=>", "self", "read_exact(", "self", "v3", "len(", "Some(", "v4", "=>", "self", "read_exact(", "v4"] := by decide +kernel
+
+/-- callee src/offset/local/tz_info/parser.rs:fn read_while -/
+theorem callee_src_offset_local_tz_info_parser_rs_fn_read_while : C05_callee_src_offset_local_tz_info_parser_rs_fn_read_while =
+    ["<", "F", "Fn(", "&", "u8", "->", "bool", ">", "&", "self", "v1", "F", "->", "Result", "<", "&", "u8", "v2", "Error", ">", "match", "self", "v3", "iter(", "position(", "|", "v4", "|", "!", "f(", "v4", "None", "=>", "self", "read_exact(", "self", "v3", "len(", "Some(", "v5", "=>", "self", "read_exact(", "v5"] := by decide +kernel
+
+/-- callee src/offset/local/tz_info/parser.rs:fn remaining -/
+theorem callee_src_offset_local_tz_info_parser_rs_fn_remaining : C05_callee_src_offset_local_tz_info_parser_rs_fn_remaining =
+    ["&", "self", "->", "&", "u8", "self", "v1"] := by decide +kernel
+
+/-- callee src/offset/local/tz_info/parser.rs:fn seek_after -/
+theorem callee_src_offset_local_tz_info_parser_rs_fn_seek_after : C05_callee_src_offset_local_tz_info_parser_rs_fn_seek_after =
+    ["&", "self", "v1", "usize", "->", "Result", "<", "usize", "v2", "Error", ">", "if", "v1", "<", "self", "v3", "return", "Err(", "v2", "Error", "from(", "ErrorKind", "UnexpectedEof", "match", "self", "v4", "get(", "v1", "-", "self", "v3", "..", "Some(", "v4", "=>", "self", "v4", "v4", "self", "v3", "v1", "Ok(", "v1", "v5", "=>", "Err(", "v2", "Error", "from(", "ErrorKind", "UnexpectedEof"] := by decide +kernel
+
+/-- callee src/offset/local/tz_info/rule.rs:fn from_tz_string -/
+theorem callee_src_offset_local_tz_info_rule_rs_fn_from_tz_string : C05_callee_src_offset_local_tz_info_rule_rs_fn_from_tz_string =
+    ["v1", "&", "u8", "v2", "bool", "->", "Result", "<", "Self", "Error", ">", "v3", "Cursor", "new(", "v1", "v4", "Some(", "parse_name(", "&", "v3", "?", "v5", "parse_offset(", "&", "v3", "?", "if", "v3", "is_empty(", "return", "Ok(", "LocalTimeType", "new(", "-", "v5", "false", "v4", "?", "into(", "v6", "Some(", "parse_name(", "&", "v3", "?", "v7", "match", "v3", "peek(", "Some(", "&", "b','", "=>", "v5", "-", "3600", "Some(", "v8", "=>", "parse_offset(", "&", "v3", "?", "None", "=>", "return", "Err(", "Error", "UnsupportedTzString(", "\"…\"", "if", "v3", "is_empty(", "return", "Err(", "Error", "UnsupportedTzString(", "\"…\"", "v3", "read_tag(", "b\",\"", "?", "let(", "v9", "v10", "RuleDay", "parse(", "&", "v3", "v2", "?", "v3", "read_tag(", "b\",\"", "?", "let(", "v11", "v12", "RuleDay", "parse(", "&", "v3", "v2", "?", "if", "!", "v3", "is_empty(", "return", "Err(", "Error", "InvalidTzString(", "\"…\"", "Ok(", "AlternateTime", "new(", "LocalTimeType", "new(", "-", "v5", "false", "v4", "?", "LocalTimeType", "new(", "-", "v7", "true", "v6", "?", "v9", "v10", "v11", "v12", "?", "into("] := by decide +kernel
+
+/-- callee src/offset/local/tz_info/rule.rs:fn is_leap_year -/
+theorem callee_src_offset_local_tz_info_rule_rs_fn_is_leap_year : C05_callee_src_offset_local_tz_info_rule_rs_fn_is_leap_year =
+    ["v1", "i32", "->", "bool", "v1", "%", "400", "==", "0", "||", "v1", "%", "4", "==", "0", "&&", "v1", "%", "100", "!=", "0"] := by decide +kernel
+
+/-- callee src/offset/local/tz_info/rule.rs:fn parse_hhmmss -/
+theorem callee_src_offset_local_tz_info_rule_rs_fn_parse_hhmmss : C05_callee_src_offset_local_tz_info_rule_rs_fn_parse_hhmmss =
+    ["v1", "&", "Cursor", "->", "Result", "<", "i32", "i32", "i32", "Error", ">", "v2", "v1", "read_int(", "?", "v3", "0", "v4", "0", "if", "v1", "read_optional_tag(", "b\":\"", "?", "v3", "v1", "read_int(", "?", "if", "v1", "read_optional_tag(", "b\":\"", "?", "v4", "v1", "read_int(", "?", "Ok(", "v2", "v3", "v4"] := by decide +kernel
+
+/-- callee src/offset/local/tz_info/rule.rs:fn parse_name -/
+theorem callee_src_offset_local_tz_info_rule_rs_fn_parse_name : C05_callee_src_offset_local_tz_info_rule_rs_fn_parse_name =
+    ["<", ">", "v1", "&", "Cursor", "<", ">", "->", "Result", "<", "&", "u8", "Error", ">", "match", "v1", "peek(", "Some(", "b'<'", "=>", "v2", "=>", "return", "Ok(", "v1", "read_while(", "u8", "v3", "?", "v1", "read_exact(", "1", "?", "v4", "v1", "read_until(", "|", "&", "v5", "|", "v5", "==", "b'>'", "?", "v1", "read_exact(", "1", "?", "Ok(", "v4"] := by decide +kernel
+
+/-- callee src/offset/local/tz_info/rule.rs:fn parse_offset -/
+theorem callee_src_offset_local_tz_info_rule_rs_fn_parse_offset : C05_callee_src_offset_local_tz_info_rule_rs_fn_parse_offset =
+    ["v1", "&", "Cursor", "->", "Result", "<", "i32", "Error", ">", "let(", "v2", "v3", "v4", "v5", "parse_signed_hhmmss(", "v1", "?", "if!(", "0", "..=", "24", "contains(", "&", "v3", "return", "Err(", "Error", "InvalidTzString(", "\"…\"", "if!(", "0", "..=", "59", "contains(", "&", "v4", "return", "Err(", "Error", "InvalidTzString(", "\"…\"", "if!(", "0", "..=", "59", "contains(", "&", "v5", "return", "Err(", "Error", "InvalidTzString(", "\"…\"", "Ok(", "v2", "*", "v3", "*", "3600", "+", "v4", "*", "60", "+", "v5"] := by decide +kernel
+
+/-- callee src/offset/local/tz_info/rule.rs:fn parse_signed_hhmmss -/
+theorem callee_src_offset_local_tz_info_rule_rs_fn_parse_signed_hhmmss : C05_callee_src_offset_local_tz_info_rule_rs_fn_parse_signed_hhmmss =
+    ["v1", "&", "Cursor", "->", "Result", "<", "i32", "i32", "i32", "i32", "Error", ">", "v2", "1", "if", "Some(", "&", "v3", "v1", "peek(", "if", "v3", "==", "b'+'", "||", "v3", "==", "b'-'", "v1", "read_exact(", "1", "?", "if", "v3", "==", "b'-'", "v2", "-", "1", "let(", "v4", "v5", "v6", "parse_hhmmss(", "v1", "?", "Ok(", "v2", "v4", "v5", "v6"] := by decide +kernel
+
+/-- callee src/offset/local/tz_info/timezone.rs:fn find_ohos_tz_data -/
+theorem callee_src_offset_local_tz_info_timezone_rs_fn_find_ohos_tz_data : C05_callee_src_offset_local_tz_info_timezone_rs_fn_find_ohos_tz_data =
+    ["v1", "&", "str", "->", "Result", "<", "Vec", "<", "u8", ">", "Error", ">", "TZDATA_PATH", "&", "str", "\"…\"", "match", "File", "open(", "TZDATA_PATH", "Ok(", "v2", "=>", "from_tzdata_file(", "&", "v2", "v1", "Err(", "v3", "=>", "Err(", "v3", "into("] := by decide +kernel
+
+/-- callee src/offset/local/tz_info/timezone.rs:fn find_tz_file -/
+theorem callee_src_offset_local_tz_info_timezone_rs_fn_find_tz_file : C05_callee_src_offset_local_tz_info_timezone_rs_fn_find_tz_file =
+    ["v1", "AsRef", "<", "Path", ">", "->", "Result", "<", "File", "Error", ">", "return", "Ok(", "File", "open(", "v1", "?", "v1", "v1", "as_ref(", "if", "v1", "is_absolute(", "return", "Ok(", "File", "open(", "v1", "?", "for", "v2", "in", "&", "ZONE_INFO_DIRECTORIES", "if", "Ok(", "v3", "File", "open(", "PathBuf", "from(", "v2", "join(", "v1", "return", "Ok(", "v3", "Err(", "Error", "Io(", "v4", "ErrorKind", "NotFound", "into("] := by decide +kernel
+
+/-- callee src/offset/local/tz_info/timezone.rs:fn from_file -/
+theorem callee_src_offset_local_tz_info_timezone_rs_fn_from_file : C05_callee_src_offset_local_tz_info_timezone_rs_fn_from_file =
+    ["v1", "&", "File", "->", "Result", "<", "Self", "Error", ">", "v2", "Vec", "new(", "v1", "read_to_end(", "&", "v2", "?", "Self", "from_tz_data(", "&", "v2"] := by decide +kernel
+
+/-- callee src/offset/local/tz_info/timezone.rs:fn from_posix_tz -/
+theorem callee_src_offset_local_tz_info_timezone_rs_fn_from_posix_tz : C05_callee_src_offset_local_tz_info_timezone_rs_fn_from_posix_tz =
+    ["v1", "&", "str", "->", "Result", "<", "Self", "Error", ">", "if", "v1", "is_empty(", "return", "Ok(", "Self", "utc(", "if", "v1", "==", "\"localtime\"", "return", "Self", "from_tz_data(", "&", "v2", "read(", "\"…\"", "?", "if", "Ok(", "v3", "v4", "find_tz_data(", "v1", "return", "Self", "from_tz_data(", "&", "v3", "return", "Self", "from_tz_data(", "&", "find_ohos_tz_data(", "v1", "?", "v5", "v1", "chars(", "if", "v5", "next(", "==", "Some(", "':'", "return", "Self", "from_file(", "&", "find_tz_file(", "v5", "as_str(", "?", "if", "Ok(", "v6", "find_tz_file(", "v1", "return", "Self", "from_file(", "&", "v6", "v1", "v1", "trim_matches(", "|", "v7", "char", "|", "v7", "is_ascii_whitespace(", "v8", "TransitionRule", "from_tz_string(", "v1", "as_bytes(", "false", "?", "Self", "new(", "v9", "!", "match", "v8", "TransitionRule", "Fixed(", "v10", "=>", "v9", "!", "v10", "TransitionRule", "Alternate(", "AlternateTime", "v11", "v12", "..", "=>", "v9", "!", "v11", "v12", "v9", "!", "Some(", "v8"] := by decide +kernel
+
+/-- callee src/offset/local/tz_info/timezone.rs:fn from_tz_data -/
+theorem callee_src_offset_local_tz_info_timezone_rs_fn_from_tz_data : C05_callee_src_offset_local_tz_info_timezone_rs_fn_from_tz_data =
+    ["v1", "&", "u8", "->", "Result", "<", "Self", "Error", ">", "v2", "parse(", "v1"] := by decide +kernel
+
+/-- callee src/offset/local/tz_info/timezone.rs:fn from_tzdata_bytes -/
+theorem callee_src_offset_local_tz_info_timezone_rs_fn_from_tzdata_bytes : C05_callee_src_offset_local_tz_info_timezone_rs_fn_from_tzdata_bytes =
+    ["v1", "&", "Vec", "<", "u8", ">", "v2", "&", "str", "->", "Result", "<", "Vec", "<", "u8", ">", "Error", ">", "VERSION_SIZE", "usize", "12", "OFFSET_SIZE", "usize", "4", "INDEX_CHUNK_SIZE", "usize", "48", "ZONENAME_SIZE", "usize", "40", "v3", "Cursor", "new(", "&", "v1", "v4", "v3", "read_exact(", "VERSION_SIZE", "?", "v5", "v3", "read_be_u32(", "?", "v6", "v3", "read_be_u32(", "?", "v4", "v3", "read_be_u32(", "?", "v3", "seek_after(", "v5", "as", "usize", "?", "v7", "v5", "while", "v7", "<", "v6", "v8", "v3", "read_exact(", "ZONENAME_SIZE", "?", "v9", "v3", "read_be_u32(", "?", "v10", "v3", "read_be_u32(", "?", "v11", "str", "from_utf8(", "v8", "?", "trim_end_matches(", "'\\0'", "if", "v11", "!=", "v2", "v7", "+=", "INDEX_CHUNK_SIZE", "as", "u32", "continue", "v3", "seek_after(", "v6", "+", "v9", "as", "usize", "?", "return", "match", "v3", "read_exact(", "v10", "as", "usize", "Ok(", "v12", "=>", "Ok(", "v12", "to_vec(", "Err(", "v13", "=>", "Err(", "Error", "InvalidTzFile(", "\"…\"", "Err(", "Error", "InvalidTzString(", "\"…\""] := by decide +kernel
+
+/-- callee src/offset/local/tz_info/timezone.rs:fn from_tzdata_file -/
+theorem callee_src_offset_local_tz_info_timezone_rs_fn_from_tzdata_file : C05_callee_src_offset_local_tz_info_timezone_rs_fn_from_tzdata_file =
+    ["v1", "&", "File", "v2", "&", "str", "->", "Result", "<", "Vec", "<", "u8", ">", "Error", ">", "v3", "Vec", "new(", "v1", "read_to_end(", "&", "v3", "?", "from_tzdata_bytes(", "&", "v3", "v2"] := by decide +kernel
+
+/-- callee src/offset/local/tz_info/timezone.rs:fn local -/
+theorem callee_src_offset_local_tz_info_timezone_rs_fn_local : C05_callee_src_offset_local_tz_info_timezone_rs_fn_local =
+    ["v1", "Option", "<", "&", "str", ">", "->", "Result", "<", "Self", "Error", ">", "match", "v1", "Some(", "v2", "=>", "Self", "from_posix_tz(", "v2", "None", "=>", "Self", "from_posix_tz(", "\"localtime\""] := by decide +kernel
+
+/-- callee src/offset/local/tz_info/timezone.rs:fn unix_time_to_unix_leap_time -/
+theorem callee_src_offset_local_tz_info_timezone_rs_fn_unix_time_to_unix_leap_time : C05_callee_src_offset_local_tz_info_timezone_rs_fn_unix_time_to_unix_leap_time =
+    ["&", "self", "v1", "i64", "->", "Result", "<", "i64", "Error", ">", "v2", "v1", "v3", "0", "while", "v3", "<", "self", "v4", "len(", "v5", "&", "self", "v4", "v3", "if", "v2", "<", "v5", "v2", "break", "v2", "match", "v1", "checked_add(", "v5", "v6", "as", "i64", "Some(", "v2", "=>", "v2", "None", "=>", "return", "Err(", "Error", "OutOfRange(", "\"…\"", "v3", "+=", "1", "Ok(", "v2"] := by decide +kernel
+
+/-- callee src/offset/local/tz_info/timezone.rs:fn utc -/
+theorem callee_src_offset_local_tz_info_timezone_rs_fn_utc : C05_callee_src_offset_local_tz_info_timezone_rs_fn_utc =
+    ["->", "Self", "Self", "v1", "Vec", "new(", "v2", "v3", "!", "LocalTimeType", "UTC", "v4", "Vec", "new(", "v5", "None"] := by decide +kernel
+
+/-- callee src/offset/local/unix.rs:fn current_zone -/
+theorem callee_src_offset_local_unix_rs_fn_current_zone : C05_callee_src_offset_local_unix_rs_fn_current_zone =
+    ["v1", "Option", "<", "&", "str", ">", "->", "TimeZone", "TimeZone", "local(", "v1", "ok(", "or_else(", "v2", "unwrap_or_else(", "TimeZone", "v3"] := by decide +kernel
+
+/-- callee src/offset/mod.rs:fn earliest -/
+theorem callee_src_offset_mod_rs_fn_earliest : C05_callee_src_offset_mod_rs_fn_earliest =
+    ["self", "->", "Option", "<", "T", ">", "match", "self", "MappedLocalTime", "Single(", "v1", "|", "MappedLocalTime", "Ambiguous(", "v1", "v2", "=>", "Some(", "v1", "v2", "=>", "None"] := by decide +kernel
+
+/-- callee src/offset/mod.rs:fn latest -/
+theorem callee_src_offset_mod_rs_fn_latest : C05_callee_src_offset_mod_rs_fn_latest =
+    ["self", "->", "Option", "<", "T", ">", "match", "self", "MappedLocalTime", "Single(", "v1", "|", "MappedLocalTime", "Ambiguous(", "v2", "v1", "=>", "Some(", "v1", "v2", "=>", "None"] := by decide +kernel
+
 end Chrono.Pins.C05
